@@ -132,7 +132,8 @@ def main(ctx):
             ('ident', 'empty_is_none')]
     if not quick:
         sens += [('cert', 'no_principal'), ('cert', 'accept_unknown_critical'),
-                 ('verify', 'ignore_algname'), ('ident', 'strip_compare'),
+                 ('verify', 'ignore_algname'), ('verify', 'normalise_sig'),
+                 ('ident', 'strip_compare'),
                  ('ident', 'lower_compare'), ('ident', 'before_truthy'),
                  ('ident', 'closed_before'), ('sshsig', 'before_truthy')]
     for table, variant in sens:
@@ -344,7 +345,7 @@ def main(ctx):
             ctx.violation(
                 {'module': 'SigCert', 'table': 'ident', 'row': row,
                  'expected_reject_at': stage},
-                f'certificate accepted for an identity / at a time the rule '
+                f'accepted for an identity / at a time the rule '
                 f'rejects (stage {stage}): {what}',
                 replay={'kind': 'ident', 'row': row, 'alg': aname})
         elif not ok and verdict == 'accept':
@@ -435,6 +436,51 @@ def main(ctx):
             ctx.sample({'sweep': 'certificate', 'alg': aname,
                         'single_byte_edits_per_field': fields_hit,
                         'all_refused': True}, limit=8)
+    # length-changing re-encodings of the signature (leading zero stripped /
+    # added, short / long, non-minimal mpints, trailing data ...) through
+    # verify(), the CA signature of a certificate and validate_sshsig: only
+    # the canonical blob made by sign() may be accepted
+    for aname, kalg, sig_alg in algs:
+        if not (only.kind('reenc') and only.alg(aname)):
+            continue
+        family = 'ecdsa' if kalg.startswith('ecdsa-') else \
+            'rsa' if kalg == 'ssh-rsa' else kalg
+        paths = [('verify', D.reenc_verify_cases(kalg, sig_alg)),
+                 ('cert', D.reenc_cert_cases(kalg, sig_alg, rnd))]
+        if aname not in ('rsa-sha2-256', 'ssh-rsa'):
+            paths.append(('sshsig', D.reenc_sshsig_cases(kalg)))
+        for path, gen in paths:
+            nvar = 0
+            for vi, (name, ok, exc) in enumerate(gen):
+                note_exc('reenc', exc)
+                if name == 'search-failed':
+                    ctx.notes.append(f'reencoding {aname}/{path}: no signature '
+                                     f'with a leading zero found (skipped)')
+                    continue
+                if name == 'canonical-refused':
+                    ctx.divergence(f'reencoding {aname}/{path}: the canonical '
+                                   f'signature is refused ({exc})')
+                    continue
+                if name == 'canonical':
+                    continue
+                nvar += 1
+                ctx.count(('reenc', aname, path, name, vi))
+                if ok:
+                    cls = 'mpint-extra-leading-zero' \
+                        if 'extra-leading-zero' in name else name
+                    ctx.violation(
+                        {'module': 'SigCert', 'sweep': 'reencoding',
+                         'family': family, 'class': cls, 'path': path,
+                         'alg': aname, 'variant': name},
+                        f'{aname}: a re-encoded (non-canonical) signature '
+                        f'blob [{name}] is accepted by '
+                        f'{ {"verify": "key.verify()", "cert": "import_certificate() as CA signature", "sshsig": "validate_sshsig()"}[path]}',
+                        replay={'kind': 'reenc', 'alg': aname, 'path': path,
+                                'variant': name})
+            if aname == algs[2][0] and path == 'verify':
+                ctx.sample({'sweep': 'reencoding', 'alg': aname,
+                            'variants_per_path': nvar,
+                            'paths': ['verify', 'cert', 'sshsig']}, limit=9)
     sweep_sig_algs = algs if not quick else [a for a in algs if a[0] in
                                              ('ed25519', 'ecdsa256',
                                               'rsa-sha2-512')]
@@ -493,7 +539,9 @@ def main(ctx):
         'asyncssh has no principals= option in allowed-signers lines, so '
         'that option is not a dimension',
         'ECDSA (r, n-s) malleability is outside the quantifier (single-byte '
-        'edits) and not tested',
+        'edits) and not tested; length-changing re-encodings of the same '
+        'signature value ARE tested (only the canonical blob may verify); '
+        'sk-* signatures are not (no authenticator to make one)',
         'certificates are built by the harness encoder and signed with '
         'asyncssh key.sign(); ssh-keygen -L confirms on samples that OpenSSH '
         'parses them as intended',
